@@ -35,6 +35,11 @@ Added in the fourth seeded round: (R10) the JSON look-up comparator also tells f
 key's path and name); (R7) the log buffer is emptied at a scenario boundary; (R12) terminal writer: the walk over a matched step's capture
 groups emits consecutive slices from the old cursor to the new one, each once, or leaves the cursor alone; it starts at 0 and the tail is
 emitted once (the step text is reproduced, whatever the styling); (R1-R3 keep the libtest table) .
+Added in the fifth to seventh seeded rounds: (R13) complete writes; (R14) locations formatted line:col in every reporter; (R15) JUnit case names
+identify the scenario; (R16) held-back libtest events keep their order; (R17) total Duration accessors; (R18) TestEvent decorators keep the kind;
+(R19) test_count from the event, parser errors numbered by their own counter; (R20) CLI verbosity tables; (R21) indentation brackets balance;
+(R22) trim_path on paths only; R1 name-carries-attempt; R8 started-stamps-time / fresh error suite; R9 erases-pending-lines, step-kind markers,
+re-output mirrors output; R10 look-up key agreement.
 """
 DECLINED = ["text of any report beyond the recorded status / target list / message presence (R7-R9): escaping, well-formedness, indentation, durations",
             "terminal writer: cursor arithmetic of re-printed lines (lines_to_clear, value-level) and which style a piece of the step text gets", "suite totals as numbers"]
